@@ -1,6 +1,8 @@
 package main
 
 import (
+	"sort"
+
 	"golang.org/x/tools/go/ssa"
 )
 
@@ -108,4 +110,29 @@ func retBool(ex *Explorer, st *State, v ssa.Value) string {
 		return s
 	}
 	return ""
+}
+
+// explorationRoots: the functions from which fn's body is explored. A helper
+// that every caller explores inline is judged in its callers (recursively);
+// anything else is its own root.
+func explorationRoots(c *Ctx, fn *ssa.Function) []*ssa.Function {
+	seen := map[*ssa.Function]bool{}
+	var out []*ssa.Function
+	var walk func(f *ssa.Function, depth int)
+	walk = func(f *ssa.Function, depth int) {
+		if seen[f] {
+			return
+		}
+		seen[f] = true
+		if depth < 3 && inlinedEverywhere(c, f) {
+			for _, s := range c.P.CallersOf(f) {
+				walk(s.Parent(), depth+1)
+			}
+			return
+		}
+		out = append(out, f)
+	}
+	walk(fn, 0)
+	sort.Slice(out, func(i, j int) bool { return fnLess(c.P, out[i], out[j]) })
+	return out
 }
